@@ -26,11 +26,18 @@ pub assume_specification<'a, T, F> [ <[T]>::binary_search_by ] (s: &'a [T], f: F
             ==> ord_rank(oi) <= ord_rank(oj),
     ensures
         match r {
-            Ok(k) => k < s@.len() && call_ensures(f, (&s@[k as int],), Ordering::Equal),
+            Ok(k) => k < s@.len() && s@.len() <= usize::MAX && call_ensures(f, (&s@[k as int],), Ordering::Equal),
             Err(k) => k <= s@.len()
                 && (forall|i: int| 0 <= i < k ==> call_ensures(f, (&#[trigger] s@[i],), Ordering::Less))
                 && (forall|i: int| k <= i < s@.len() ==> call_ensures(f, (&#[trigger] s@[i],), Ordering::Greater)),
         },
+;
+
+// ASSUMED contract of std: `std::cmp::max` (documented: returns the second argument when the two compare equal)
+pub assume_specification<T> [ std::cmp::max ] (a: T, b: T) -> (r: T)
+    where T: std::cmp::Ord + std::marker::Destruct
+    ensures
+        <T as OrdSpec>::obeys_cmp_spec() ==> r == (if a.cmp_spec(&b) == Ordering::Greater { a } else { b }),
 ;
 
 pub fn rt_assert(b: bool)
@@ -210,7 +217,8 @@ pub proof fn lemma_total_bounds(s: Seq<(u64, u64)>)
 
 pub proof fn lemma_cov_push(s: Seq<(u64, u64)>, x: (u64, u64))
     ensures
-        forall|b: int| covered(s.push(x), b) <==> (covered(s, b) || inr(x, b)),
+        forall|b: int| #![trigger covered(s.push(x), b)] #![trigger covered(s, b)] #![trigger inr(x, b)]
+            covered(s.push(x), b) <==> (covered(s, b) || inr(x, b)),
 {
     let t = s.push(x);
     assert forall|b: int| covered(t, b) <==> (covered(s, b) || inr(x, b)) by {
@@ -605,5 +613,302 @@ pub proof fn lemma_complete_iff(s: Seq<(u64, u64)>, n: int)
                 }
             }
         }
+    }
+}
+
+// ---------------------------------------------------------------- gaps
+
+pub open spec fn uncov(s: Seq<(u64, u64)>, lo: int, hi: int) -> bool {
+    forall|x: int| lo <= x < hi ==> !covered(s, x)
+}
+
+/// start of run j, or 2^64 (beyond every byte position) when there is no run j
+pub open spec fn next_start(s: Seq<(u64, u64)>, j: int) -> int {
+    if 0 <= j < s.len() { s[j].0 as int } else { 0x1_0000_0000_0000_0000int }
+}
+
+/// loop state of `gaps`: the window [start, p) has been classified, g holds exactly its uncovered bytes
+pub open spec fn gaps_ok(s: Seq<(u64, u64)>, g: Seq<(u64, u64)>, start: int, p: int, end: int) -> bool {
+    &&& wf(g)
+    &&& forall|x: int| covered(g, x) ==> start <= x < p && x < end
+    &&& forall|x: int| start <= x < p ==> (covered(g, x) <==> !covered(s, x))
+    &&& (g.len() > 0 ==> g.last().1 < p)
+}
+
+/// the result of `gaps`: exactly the maximal uncovered sub-ranges of the window
+pub open spec fn gaps_exact(s: Seq<(u64, u64)>, g: Seq<(u64, u64)>, start: int, end: int) -> bool {
+    &&& wf(g)
+    &&& forall|i: int| 0 <= i < g.len() ==> start <= (#[trigger] g[i]).0 && g[i].1 <= end
+    &&& forall|x: int| start <= x < end ==> (covered(g, x) <==> !covered(s, x))
+}
+
+pub proof fn lemma_uncov_between(s: Seq<(u64, u64)>, j: int)
+    requires
+        wf(s),
+        0 <= j <= s.len(),
+    ensures
+        uncov(s, if j > 0 { s[j - 1].1 as int } else { 0 }, next_start(s, j)),
+        0 < j < s.len() ==> s[j - 1].1 < s[j].0,
+{
+    let lo: int = if j > 0 { s[j - 1].1 as int } else { 0 };
+    assert forall|x: int| lo <= x < next_start(s, j) implies !covered(s, x) by {
+        if covered(s, x) {
+            let i = choose|i: int| 0 <= i < s.len() && inr(s[i], x);
+            if i < j {
+                if i < j - 1 {
+                    lemma_sorted(s, i, j - 1);
+                    assert(s[j - 1].0 < s[j - 1].1);
+                }
+            } else {
+                if i > j {
+                    lemma_sorted(s, j, i);
+                    assert(s[j].0 < s[j].1);
+                }
+            }
+        }
+    }
+    if 0 < j < s.len() {
+        assert(sep_at(s, j - 1));
+    }
+}
+
+pub proof fn lemma_gaps_init_ok(s: Seq<(u64, u64)>, k: int, start: int, end: int)
+    requires
+        wf(s),
+        0 <= k < s.len(),
+        s[k].0 == start,
+    ensures
+        gaps_ok(s, Seq::<(u64, u64)>::empty(), start, s[k].1 as int, end),
+        uncov(s, s[k].1 as int, next_start(s, k + 1)),
+        start <= s[k].1,
+        k + 1 < s.len() ==> s[k].1 < s[k + 1].0,
+{
+    let g = Seq::<(u64, u64)>::empty();
+    lemma_uncov_between(s, k + 1);
+    assert(s[k].0 < s[k].1);
+    assert forall|x: int| start <= x < s[k].1 implies (covered(g, x) <==> !covered(s, x)) by {
+        assert(inr(s[k], x));
+    }
+}
+
+pub proof fn lemma_gaps_init_err(s: Seq<(u64, u64)>, k: int, start: int, end: int, p: int)
+    requires
+        wf(s),
+        0 <= k <= s.len(),
+        forall|i: int| 0 <= i < k ==> (#[trigger] s[i]).0 < start,
+        forall|i: int| k <= i < s.len() ==> (#[trigger] s[i]).0 > start,
+        p == (if k == 0 { start } else if s[k - 1].1 > start { s[k - 1].1 as int } else { start }),
+    ensures
+        gaps_ok(s, Seq::<(u64, u64)>::empty(), start, p, end),
+        uncov(s, p, next_start(s, k)),
+        start <= p,
+        k < s.len() ==> p < s[k].0,
+{
+    let g = Seq::<(u64, u64)>::empty();
+    lemma_uncov_between(s, k);
+    assert forall|x: int| start <= x < p implies (covered(g, x) <==> !covered(s, x)) by {
+        assert(k > 0);
+        assert(inr(s[k - 1], x));
+    }
+}
+
+pub proof fn lemma_gaps_step(s: Seq<(u64, u64)>, g: Seq<(u64, u64)>, start: int, p: u64, end: int, j: int)
+    requires
+        wf(s),
+        gaps_ok(s, g, start, p as int, end),
+        0 <= j < s.len(),
+        start <= p < s[j].0,
+        s[j].0 < end,
+        uncov(s, p as int, s[j].0 as int),
+    ensures
+        gaps_ok(s, g.push((p, s[j].0)), start, s[j].1 as int, end),
+        uncov(s, s[j].1 as int, next_start(s, j + 1)),
+        j + 1 < s.len() ==> s[j].1 < s[j + 1].0,
+        start <= s[j].1,
+{
+    let n = (p, s[j].0);
+    let g2 = g.push(n);
+    lemma_uncov_between(s, j + 1);
+    lemma_cov_push(g, n);
+    assert(s[j].0 < s[j].1);
+    assert forall|i: int| 0 <= i < g2.len() implies (#[trigger] g2[i]).0 < g2[i].1 by {
+        if i < g.len() {
+            assert(g2[i] == g[i]);
+        }
+    }
+    assert forall|i: int| 0 <= i < g2.len() - 1 implies #[trigger] sep_at(g2, i) by {
+        if i < g.len() - 1 {
+            assert(sep_at(g, i));
+        }
+    }
+    assert forall|x: int| start <= x < s[j].1 implies (covered(g2, x) <==> !covered(s, x)) by {
+        assert(covered(g2, x) <==> (covered(g, x) || inr(n, x)));
+        if x < p {
+            assert(!inr(n, x));
+        } else if x < s[j].0 {
+            assert(inr(n, x));
+            assert(!covered(s, x));
+        } else {
+            assert(inr(s[j], x));
+            assert(!inr(n, x));
+            assert(!covered(g, x));
+        }
+    }
+    assert forall|x: int| covered(g2, x) implies start <= x < s[j].1 && x < end by {
+        assert(covered(g2, x) <==> (covered(g, x) || inr(n, x)));
+    }
+}
+
+pub proof fn lemma_gaps_finish(s: Seq<(u64, u64)>, g: Seq<(u64, u64)>, start: int, p: u64, end: u64)
+    requires
+        gaps_ok(s, g, start, p as int, end as int),
+        start <= p,
+        p >= end || uncov(s, p as int, end as int),
+    ensures
+        gaps_exact(s, if p < end { g.push((p, end)) } else { g }, start, end as int),
+{
+    let g2 = if p < end { g.push((p, end)) } else { g };
+    if p < end {
+        let n = (p, end);
+        lemma_cov_push(g, n);
+        assert forall|i: int| 0 <= i < g2.len() implies (#[trigger] g2[i]).0 < g2[i].1 by {
+            if i < g.len() {
+                assert(g2[i] == g[i]);
+            }
+        }
+        assert forall|i: int| 0 <= i < g2.len() - 1 implies #[trigger] sep_at(g2, i) by {
+            if i < g.len() - 1 {
+                assert(sep_at(g, i));
+            }
+        }
+    }
+    assert forall|x: int| covered(g2, x) implies start <= x < end by {
+        if p < end {
+            assert(covered(g2, x) <==> (covered(g, x) || inr((p, end), x)));
+        }
+    }
+    assert forall|x: int| start <= x < end implies (covered(g2, x) <==> !covered(s, x)) by {
+        if p < end {
+            assert(covered(g2, x) <==> (covered(g, x) || inr((p, end), x)));
+            if x >= p {
+                assert(inr((p, end), x));
+            }
+        }
+    }
+    assert forall|i: int| 0 <= i < g2.len() implies start <= (#[trigger] g2[i]).0 && g2[i].1 <= end by {
+        assert(g2[i].0 < g2[i].1);
+        assert(inr(g2[i], g2[i].0 as int));
+        assert(inr(g2[i], g2[i].1 - 1));
+        assert(covered(g2, g2[i].0 as int));
+        assert(covered(g2, g2[i].1 - 1));
+    }
+}
+
+/// what `gaps_exact` means, spelled out: non-empty, inside the window, strictly separated (hence maximal),
+/// covering exactly the bytes of the window that are not held
+pub proof fn lemma_gaps_exact_maximal(s: Seq<(u64, u64)>, g: Seq<(u64, u64)>, start: int, end: int)
+    requires
+        gaps_exact(s, g, start, end),
+    ensures
+        start >= end ==> g.len() == 0,
+        forall|i: int| 0 <= i < g.len() ==> (#[trigger] g[i]).0 < g[i].1,
+        // left-maximal: the byte before a gap is outside the window or held
+        forall|i: int| 0 <= i < g.len() ==> (#[trigger] g[i]).0 == start || covered(s, g[i].0 - 1),
+        // right-maximal
+        forall|i: int| 0 <= i < g.len() ==> (#[trigger] g[i]).1 == end || covered(s, g[i].1 as int),
+{
+    if start >= end && g.len() > 0 {
+        assert(g[0].0 < g[0].1);
+    }
+    assert forall|i: int| 0 <= i < g.len() implies (#[trigger] g[i]).0 == start || covered(s, g[i].0 - 1) by {
+        let x = g[i].0 - 1;
+        assert(g[i].0 < g[i].1);
+        if g[i].0 != start {
+            if covered(g, x) {
+                let m = choose|m: int| 0 <= m < g.len() && inr(g[m], x);
+                if m < i {
+                    lemma_sorted(g, m, i);
+                } else if m > i {
+                    lemma_sorted(g, i, m);
+                    assert(g[m].0 < g[m].1);
+                }
+            }
+        }
+    }
+    assert forall|i: int| 0 <= i < g.len() implies (#[trigger] g[i]).1 == end || covered(s, g[i].1 as int) by {
+        let x = g[i].1 as int;
+        assert(g[i].0 < g[i].1);
+        if g[i].1 != end {
+            if covered(g, x) {
+                let m = choose|m: int| 0 <= m < g.len() && inr(g[m], x);
+                if m < i {
+                    lemma_sorted(g, m, i);
+                    assert(g[m].0 < g[m].1);
+                } else if m > i {
+                    lemma_sorted(g, i, m);
+                }
+            }
+        }
+    }
+}
+
+// ---------------------------------------------------------------- total(s) is the number of distinct bytes held
+
+/// the set of byte positions held (a finite set by construction)
+pub open spec fn held(s: Seq<(u64, u64)>) -> Set<int>
+    decreases s.len(),
+{
+    if s.len() == 0 {
+        Set::<int>::empty()
+    } else {
+        held(s.drop_last()).union(vstd::set_lib::set_int_range(s.last().0 as int, s.last().1 as int))
+    }
+}
+
+pub proof fn lemma_held_is_covered(s: Seq<(u64, u64)>)
+    ensures
+        forall|b: int| held(s).contains(b) <==> covered(s, b),
+    decreases s.len(),
+{
+    if s.len() > 0 {
+        let t = s.drop_last();
+        let x = s.last();
+        lemma_held_is_covered(t);
+        assert(s =~= t.push(x));
+        lemma_cov_push(t, x);
+        assert forall|b: int| held(s).contains(b) <==> covered(s, b) by {
+            assert(covered(t.push(x), b) <==> (covered(t, b) || inr(x, b)));
+        }
+    }
+}
+
+pub proof fn lemma_total_is_cardinality(s: Seq<(u64, u64)>)
+    requires
+        wf(s),
+    ensures
+        held(s).len() == total(s),
+    decreases s.len(),
+{
+    if s.len() > 0 {
+        let t = s.drop_last();
+        let x = s.last();
+        assert(valid(t));
+        assert forall|i: int| 0 <= i < t.len() - 1 implies #[trigger] sep_at(t, i) by {
+            assert(sep_at(s, i));
+        }
+        lemma_total_is_cardinality(t);
+        lemma_held_is_covered(t);
+        let r = vstd::set_lib::set_int_range(x.0 as int, x.1 as int);
+        vstd::set_lib::lemma_int_range(x.0 as int, x.1 as int);
+        assert(x.0 < x.1);
+        assert(held(t).disjoint(r)) by {
+            assert forall|b: int| !(held(t).contains(b) && r.contains(b)) by {
+                if covered(t, b) && r.contains(b) {
+                    let i = choose|i: int| 0 <= i < t.len() && inr(t[i], b);
+                    lemma_sorted(s, i, s.len() - 1);
+                }
+            }
+        }
+        vstd::set_lib::lemma_set_disjoint_lens(held(t), r);
     }
 }
